@@ -208,6 +208,17 @@ theorem jsV_allOf (R S) (ss : List PyVal) (d : PyVal) :
     jsV R S (.dict [kw "allOf" (.list ss)]) d = jsAllL R S ss d := by
   simp [jsV, getKw, kw, keyIs, jsKws, kwOf, kwOfStr, kwNode, jsAllV]
 
+/-! ### element position -/
+
+theorem jsV_elemWrap (R S) (f : FieldDecl) (s d : PyVal) (h : jsV R S s d = true) :
+    jsV R S (elemWrap f s) d = true := by
+  unfold elemWrap
+  split
+  · cases s with
+    | dict kvs => simp only []; rw [jsV_anyOf]; simp [jsAnyL, h]
+    | _ => exact h
+  · exact h
+
 /-! ### arrays -/
 
 /-- a schema as the mappers emit it: a JSON object (or nothing, when the mapping raises) -/
@@ -215,6 +226,12 @@ def dictOrNone : PyVal → Bool
   | .dict _ => true
   | .none => true
   | _ => false
+
+theorem elemWrap_shape (f : FieldDecl) (s : PyVal) (h : dictOrNone s = true) : dictOrNone (elemWrap f s) = true := by
+  unfold elemWrap
+  split
+  · cases s <;> simp_all [dictOrNone]
+  · exact h
 
 theorem uniqKw_ok (R S) (ctx : List (PyVal × PyVal)) (u : Bool) (ys : List PyVal)
     (hu : u = true → jsonNodup ys = true) :
